@@ -41,10 +41,10 @@ Theorem c08_generic_mutex : forall ps evs c,
   cc_good ps -> cc_exec (cc_init ps) evs c -> cc_mutex c.
 Proof. exact cc_reach_mutex. Qed.
 
-(* ... and every action other than Lock (every access, every Unlock) is
-   performed by the one thread that holds the mutex *)
+(* ... and every action other than Lock and a wait for a peer (every access,
+   every Unlock) is performed by the one thread that holds the mutex *)
 Theorem c08_generic_holder : forall ps e1 i a e2 c,
-  cc_good ps -> cc_exec (cc_init ps) (e1 ++ (i, a) :: e2) c -> a <> ALock ->
+  cc_good ps -> cc_exec (cc_init ps) (e1 ++ (i, a) :: e2) c -> a <> ALock -> (forall w, a <> AWait w) ->
   exists c1, cc_exec (cc_init ps) e1 c1 /\ cc_holds c1 i = true /\
              forall j, cc_holds c1 j = true -> j = i.
 Proof. exact cc_access_by_holder. Qed.
@@ -78,7 +78,7 @@ Proof. exact (tb_one_outstanding _ _ client_programs_wb). Qed.
 Theorem c08_contiguous : forall prog ps e1 i e e2 c,
   cc_runs_table client_programs client_entries prog ps ->
   cc_exec (cc_init ps) (e1 ++ (i, ATx) :: e :: e2) c -> e = (i, ARx).
-Proof. exact (tb_tx_then_rx _ _ client_programs_wb). Qed.
+Proof. exact client_tx_then_rx. Qed.
 
 (* (T3) own reply: replies are consumed in order (the k-th Rx takes the reply
    to the k-th Tx); the k-th Rx is made by the thread that made the k-th Tx *)
